@@ -1,4 +1,5 @@
 import L21.Props.C16
+import L21.Props.NumConsts
 #print axioms L21.LefRaw.c16_exact
 #print axioms L21.LefRaw.c16_not_rounded
 #print axioms L21.LefRaw.c16_scale_invariant
@@ -7,3 +8,4 @@ import L21.Props.C16
 #print axioms L21.LefRaw.c16_one_shape_per_geometry
 #print axioms L21.LefRaw.c16_rect_coords
 #print axioms L21.LefRaw.c16_layer_blocks
+#print axioms L21.c16_dist_scale_is_source
